@@ -2,12 +2,14 @@ package props
 
 import "testing"
 
-func TestC13(t *testing.T) { RunProp(t, propC13) }
-func TestC01(t *testing.T) { RunProp(t, propC01) }
-func TestC10(t *testing.T) { RunProp(t, propC10) }
-func TestC05(t *testing.T) { RunProp(t, propC05) }
-func TestC19(t *testing.T) { RunProp(t, propC19) }
-func TestC02(t *testing.T) { RunProp(t, propC02) }
-func TestC16(t *testing.T) { RunProp(t, propC16) }
-func TestC17(t *testing.T) { RunProp(t, propC17) }
-func TestC11(t *testing.T) { RunProp(t, propC11) }
+func TestC13(t *testing.T)     { RunProp(t, propC13) }
+func TestC01(t *testing.T)     { RunProp(t, propC01) }
+func TestC10(t *testing.T)     { RunProp(t, propC10) }
+func TestC05(t *testing.T)     { RunProp(t, propC05) }
+func TestC19(t *testing.T)     { RunProp(t, propC19) }
+func TestC02(t *testing.T)     { RunProp(t, propC02) }
+func TestC16(t *testing.T)     { RunProp(t, propC16) }
+func TestC17(t *testing.T)     { RunProp(t, propC17) }
+func TestC11(t *testing.T)     { RunProp(t, propC11) }
+func TestC14(t *testing.T)     { RunProp(t, propC14) }
+func TestC14Enum(t *testing.T) { RunEnum(t, propC14) }
